@@ -59,6 +59,7 @@ def _grouped_shard(args):
         f = suite_ghash.run_family(seed * 50021 + i)
         tot += f['variants']
         problems += [p for p in f['problems'] if p['msg'].startswith('under GroupBy')]
+        problems += [p for p in suite_ghash.run_byvalue_groups(seed * 211 + i) if p['kind'] == 'c05']
     return tot, problems
 
 
